@@ -38,10 +38,27 @@ func getChainUnaryHandler(interceptors []grpc.UnaryServerInterceptor, curr int, 
 // Same as grpc.ChainUnaryInterceptor()
 func ChainUnaryInterceptor(interceptors ...grpc.UnaryServerInterceptor) ServerOption {
 	return serverOptFunc(func(s *Server) {
-		s.unaryInterceptor = func(ctx context.Context, req interface{}, info *grpc.UnaryServerInfo, handler grpc.UnaryHandler) (resp interface{}, err error) {
-			return interceptors[0](ctx, req, info, getChainUnaryHandler(interceptors, 0, info, handler))
-		}
+		s.chainUnaryInts = append(s.chainUnaryInts, interceptors...)
 	})
+}
+
+// chainUnaryInterceptors builds the server's unary interceptor from everything
+// that was configured: the one set with UnaryInterceptor first, then the
+// chained ones in registration order.
+func chainUnaryInterceptors(s *Server) {
+	interceptors := s.chainUnaryInts
+	if s.unaryInterceptor != nil {
+		interceptors = append([]grpc.UnaryServerInterceptor{s.unaryInterceptor}, s.chainUnaryInts...)
+	}
+	if len(interceptors) < 2 {
+		if len(interceptors) == 1 {
+			s.unaryInterceptor = interceptors[0]
+		}
+		return
+	}
+	s.unaryInterceptor = func(ctx context.Context, req interface{}, info *grpc.UnaryServerInfo, handler grpc.UnaryHandler) (resp interface{}, err error) {
+		return interceptors[0](ctx, req, info, getChainUnaryHandler(interceptors, 0, info, handler))
+	}
 }
 
 func getChainStreamHandler(interceptors []grpc.StreamServerInterceptor, curr int, info *grpc.StreamServerInfo, finalHandler grpc.StreamHandler) grpc.StreamHandler {
@@ -56,8 +73,23 @@ func getChainStreamHandler(interceptors []grpc.StreamServerInterceptor, curr int
 // Same as grpc.ChainStreamInterceptor()
 func ChainStreamInterceptor(interceptors ...grpc.StreamServerInterceptor) ServerOption {
 	return serverOptFunc(func(s *Server) {
-		s.streamInterceptor = func(srv interface{}, ss grpc.ServerStream, info *grpc.StreamServerInfo, handler grpc.StreamHandler) error {
-			return interceptors[0](srv, ss, info, getChainStreamHandler(interceptors, 0, info, handler))
-		}
+		s.chainStreamInts = append(s.chainStreamInts, interceptors...)
 	})
+}
+
+// chainStreamInterceptors is the stream twin of chainUnaryInterceptors.
+func chainStreamInterceptors(s *Server) {
+	interceptors := s.chainStreamInts
+	if s.streamInterceptor != nil {
+		interceptors = append([]grpc.StreamServerInterceptor{s.streamInterceptor}, s.chainStreamInts...)
+	}
+	if len(interceptors) < 2 {
+		if len(interceptors) == 1 {
+			s.streamInterceptor = interceptors[0]
+		}
+		return
+	}
+	s.streamInterceptor = func(srv interface{}, ss grpc.ServerStream, info *grpc.StreamServerInfo, handler grpc.StreamHandler) error {
+		return interceptors[0](srv, ss, info, getChainStreamHandler(interceptors, 0, info, handler))
+	}
 }
